@@ -31,15 +31,23 @@ def run(tier, seed, ev):
         obs = [("get_range hands the reader a range clamped to the blob size, inside the key's blob; Some iff present", "get_range_clamp",
                 lambda ex: A.check_finals(ex, "get_range", "wrapper", ["C17"], A.posts_get_range, N=2)),
                ("get_size is the recorded size, no I/O", "get_size", lambda ex: A.check_finals(ex, "get_size", "wrapper", ["C17"], A.posts_get_size, N=2))]
-        rc_m = mprop.run_m(PROP, tier, seed, ev, ex, obs, [("src/lib.rs", "replay_api.rs", "verif_replay_api")], "replay_api_wrappers")
+        import obl_range as RG
+        obs.append(("read loop of read_blob_range for ALL lengths (buffer as (len, capacity), pread by contract)", "read_loop",
+                    lambda ex: RG.ob_read_loop(ex, 2 if tier == "quick" else 4)))
+        rc_m = mprop.run_m(PROP, tier, seed, ev, ex, obs,
+                           lambda ob: [("src/lib.rs", "replay_range.rs", "verif_replay_range")] if (ob.cex or {}).get("violation") in ("range-length", "set-len", "panic")
+                           and "blob_len" in (ob.cex or {}) else [("src/lib.rs", "replay_api.rs", "verif_replay_api")],
+                           lambda ob: "replay_read_range" if "blob_len" in (ob.cex or {}) else "replay_api_wrappers")
         ev.functions = FN
-        ev.bounds = {"K": H[0].bounds, "M": "start, end: all u64; blob size: all u64; key universe 2; every path of get_range/get_size"}
+        ev.bounds = {"K": H[0].bounds, "M": "start, end: all u64; blob size: all u64; key universe 2; every path of get_range/get_size",
+                     "M read loop": "start, end, blob length over all u64 (file length <= 2^63-1); buffer abstracted to (len, capacity); pread returns any "
+                                    "k with 0<=k<=n, k<=remaining, k=0 iff n=0 or at EOF; at most 2 (quick) / 4 (thorough) short reads per call"}
         ev.stubs = sorted(ex.models.used) + ["K: File::open -> handle on the model blob; FileExt::read_at -> copies k bytes, 1<=k<=avail symbolic; "
                                              "libc::close -> 0; DbPaths::cas_file_path -> empty PathBuf"]
         ev.assumptions = ["composition: M shows the reader is called with (start, min(end, size)) only when start < size, otherwise an "
                           "empty result without I/O; K shows read_blob_range(s, e) returns exactly bytes [min(s,L), min(e,L)) for s <= e and an "
                           "error for s > e, allocating e - s bytes; together: get_range = content[min(start,L)..min(end,L)), buffer <= L",
                           "recorded size == file length (C18/C12)", "POSIX pread contract"]
-        ev.outside = ["blob lengths > 4 in the byte-level harness", "get_reader streaming (BufReader over the real file)"]
+        ev.outside = ["blob lengths > 4 in the byte-level harness (lengths are covered by the M read-loop obligation, bytes are not)", "more short reads than the bound", "get_reader streaming (BufReader over the real file)"]
         ev.extra["mir_dump_s"] = round(mir_s, 1)
     return tcommon.best(rc_k, rc_m)
